@@ -649,6 +649,13 @@ VUnlink(s, t, r, inv, hard) ==
   /\ Log([op |-> "VUnlink", s |-> s, t |-> t, r |-> r, inv |-> inv, hard |-> hard, res |-> "ok"])
   /\ UNCHANGED <<snap, dev, delat, dirty>>
 
+\* VDelete of an id that is no vector of the index (a graph-only node: category, auto-link target, ...): refused
+\* ("node not found"), nothing journaled -- in particular no VDEL record whose replay would cascade over the node's edges
+VDeleteGhost(n, x) ==
+  /\ x \in GNodes \ Ids
+  /\ UNCHANGED <<mem, file, snap, clock, dev, delat, dirty>>
+  /\ Log([op |-> "VDelete", n |-> n, id |-> x, res |-> "err"])
+
 \* VGetConnections(index, s, r): one-hop traversal + hydration.  It returns the vector records of the active
 \* targets that are live vectors of the index -- and, as documented ("SELF-REPAIR"), it soft-unlinks in the
 \* background every active target that is NOT a live vector (a deleted vector whose cascade has not reached the
@@ -763,6 +770,7 @@ Next ==
   \/ (Evolves /\ \E n \in Names, old, new \in Ids, v \in Vecs, um \in UserMetas : VEvolve(n, old, new, v, um))
   \/ \E n \in Names, id1, id2 \in Ids, v1, v2 \in Vecs, um \in UserMetas : VAddBatch(n, id1, v1, id2, v2, um)
   \/ \E n \in Names, id \in Ids : VDelete(n, id)
+  \/ \E n \in Names, x \in GNodes \ Ids : VDeleteGhost(n, x)
   \/ \E n \in Names, id \in Ids : VDeleteCut(n, id)
   \/ \E n \in Names, id \in Ids, k \in MKeys, v \in MVals : VSetMetadata(n, id, k, v)
   \/ \E n \in Names, id \in Ids, c \in AccSeeds : VSetMetadata(n, id, "_access_count", AccStr[c])
